@@ -17,6 +17,7 @@ MISSED = {
     "exploration is bounded to <= 2 unknowns (3 unknowns: undecided in 25 min, stated under OUTSIDE)",
 }
 NOTES = {
+    "C19-6": "CP_PLSR.transform centres / deflates a 1-D target vector in place: an input mutation, reported by C15 (cp_plsr, Y_vector); C19 transforms fresh data per call",
     "C08-6": "same edit as C14-2: the factors come back in the wrong positions -- reported by C14 (fixed factors bit-identical); C08's shape obligation uses sorted lists",
     "C08-5": "reported by C08 (represented matrix) and by C06 (reported error no longer belongs to the returned pair)",
     "C09-1": "the change is an in-place edit of the caller's rank list: reported by C15 (rank_lists), not by C09",
